@@ -220,11 +220,15 @@ hc_prop("C19",
     lambda tier: [hc("frag", 1500, 50000, tier, "C19", frag_packets=T(tier, 40, 100)),
                   hc("faulty", 1500, 50000, tier, "C19"),
                   hc("alloc-pair", 500, 20000, tier, "C19"),
-                  dict(family="hostile-rx", n=T(tier, 24, 600), params={"batch": 10, "frames": 1500})] + MIRI_RUNS(tier),
-    GEN + "Every scenario runs under the checking global allocator (layout recorded at alloc, compared at dealloc/realloc; live bytes of calls into uflow counted per scope); at the end both HalfConnections are dropped mid-state (delivered, skipped, partially assembled, resynchronised-away packets). non-trivial: teardown checked and >= 1 reassembled multi-fragment packet freed.",
+                  dict(family="hostile-rx", n=T(tier, 24, 600), params={"batch": 10, "frames": 1500}),
+                  dict(family="frag-rx", n=T(tier, 40, 2000), params={"batch": 10, "packets": 60}),
+                  dict(family="lifecycle", n=T(tier, 300, 10000), params={}),
+                  dict(family="disconnect", n=T(tier, 300, 10000), params={}),
+                  dict(family="limits", n=T(tier, 100, 4000), params={})] + MIRI_RUNS(tier),
+    GEN + "Every scenario runs under the checking global allocator (layout recorded at alloc, compared at dealloc/realloc; live bytes of calls into uflow counted per scope); at the end both HalfConnections are dropped mid-state (delivered, skipped, partially assembled, resynchronised-away packets). Endpoint families (lifecycle, disconnect, limits): real Client / Server / RemoteClient handles created, connected, disconnected, timed out and dropped in every state of the lifecycle (also mid-transfer and mid-handshake, Server dropped with live connections); after the whole world is dropped the bytes allocated inside calls into uflow must be back to where they were. non-trivial: teardown checked and >= 1 reassembled multi-fragment packet freed (endpoint families: teardown checked).",
     "Allocator-contract monitor on every free in every scenario + leak check at teardown (scoped live bytes return to the pre-construction value). The thorough tier adds the same families under AddressSanitizer/LeakSanitizer (nightly) and a small subset interpreted by Miri with tree borrows (UB, layout on deallocation, leaks, data races incl. a Send/Sync workload).",
     "checking global allocator (layout match, scoped leak check) over fault-injected executions",
-    dict(quick=800, thorough=20000), require=["teardowns_checked", "delivered_multifrag"])
+    dict(quick=800, thorough=20000), require=["teardowns_checked", "delivered_multifrag", "endpoint_teardowns_checked"])
 
 # ---------------------------------------------------------------------------------------------
 # epsim-based properties (real Client / Server objects over the virtual network and clock)
